@@ -8,9 +8,9 @@ claimed = {
  "C03": ("exploration", "fs-history", "7.3", "Independent fsck over the raw medium after every API call that wrote (success or error), including the pending chains/sizes of open files; workload biased to volumes with 0..64 free clusters and small FAT16 roots."),
  "C04": ("exploration", "fs-history", "7.4", "Monitor on every BlockDevice::write with its pre-image: region classification from the independent geometry, byte diff confined to the call's file range / newly allocated clusters / owned directory slot / FAT entries of its chains; refused and read-only calls must not change a byte."),
  "C05": ("exploration", "fs-history", "7.5", "Ground-truth FAT scan vs. reachable set after every writing call (leaks reported when they grow), and a capacity oracle: a call must succeed when the needed clusters are free and report out-of-space when they are not; fill/delete/refill arises from the Space-biased workload."),
- "C06": ("exploration", "fs-history", "7.6", "Every iterate_dir / find_directory_entry / open_dir result in simulated histories over formatter-built trees (LFN runs, deleted slots, multi-cluster and fragmented directories, FAT16 roots of 16..512 entries, FAT32 roots anywhere) is compared entry by entry with the independent reader's view of the same medium."),
+ "C06": ("exploration", "fs-history", "7.6", "Every iterate_dir / find_directory_entry / open_dir result in simulated histories over formatter-built trees (LFN runs, deleted slots, multi-cluster and fragmented directories, FAT16 roots of 16..512 entries, FAT32 roots anywhere) is compared entry by entry with the independent reader's view of the same medium and, by name, with what the history made (model); half of the cases are generated / corrupted directory media (dir-media engine)."),
  "C07": ("exploration", "fs-history", "7.7", "Mode matrix model: for every open/delete/mkdir/open_dir the set of acceptable results is computed from the model state (missing, file, read-only file, directory, already open, invalid 8.3 name); a refused call must leave the medium byte-identical."),
- "C08": ("exploration", "fs-history", "7.8", "Handle-table model over 16 compiled limit configurations covering 1..8 of each kind, id counters that wrap inside the run, stale-handle use of every handle-taking method, and every Result-returning public method called re-entrantly from directory callbacks."),
+ "C08": ("exploration", "fs-history", "7.8", "Handle-table model over 16 compiled limit configurations covering 1..8 of each kind, id counters that wrap inside the run, bursts of up to 70000 handle generations with objects held open, stale-handle use of every handle-taking method, and every Result-returning public method called re-entrantly from directory callbacks."),
  "C16": ("exploration", "fs-history", "7.16", "After every call the FAT sectors written are compared across copies; after flush/close of a written file and after close_volume the stored FSInfo free count must have moved by exactly the ground-truth change since mount; volumes start with correct, unknown, stale-low, zero, stale-high and bad-hint records."),
 }
 
